@@ -8,6 +8,7 @@ for s in seeded/*/patch.diff; do
   out=$(SEED_LINES=200 lint/seedtest.sh $s $prop 2>&1)
   n=$(echo "$out" | grep -c "^VIOLATION")
   if echo "$out" | grep -q "DOES NOT APPLY"; then echo "stale     $id ($prop): patch no longer applies to /repo"; 
+  elif echo "$out" | grep -q "cannot analyse the tree"; then echo "stale     $id ($prop): the patched tree does not compile (patch applied with fuzz onto changed code)"; fail=1;
   elif [ "$n" -gt 0 ]; then echo "detected  $id ($prop): $n violation(s)"; else echo "MISSED    $id ($prop)"; fail=1; fi
 done
 exit $fail
